@@ -57,6 +57,7 @@ def build_ops(tier="quick"):
     add(Op("mean_p1", lambda r: focal.mean(r[0]), kind="stencil"))
     add(Op("mean_p2", lambda r: focal.mean(r[0], passes=2), kind="stencil"))
     add(Op("mean_p3_excl", lambda r: focal.mean(r[0], passes=3, excludes=[np.nan, 3.0]), kind="stencil"))
+    add(Op("mean_p2_excl_nonan", lambda r: focal.mean(r[0], passes=2, excludes=[-9999.0]), kind="stencil"))
     shapes = KSHAPES_T if tier == "thorough" else KSHAPES_Q
 
     @ngjit
@@ -104,3 +105,40 @@ def build_ops(tier="quick"):
                                                                zfactor=100), policy="terrain", kind="generator",
            float_only=True))
     return ops
+
+
+def build_families():
+    """name -> (nr, [variant(rasters) -> lazy DataArray, ...]): calls that differ ONLY in parameters, to be built on the same
+    Dask inputs and computed together in one graph (shared keys / caches keyed on too little show up there)."""
+    import xrspatial as xs
+    from xrspatial import classify, convolution, focal, multispectral as ms
+    from xrspatial.utils import ngjit
+
+    @ngjit
+    def _rng(kv):
+        return np.nanmax(kv) - np.nanmin(kv)
+
+    k33, k35 = kernel01((3, 3)), kernel01((3, 5))
+    F = {
+        "savi": (2, [lambda r, s=sf: ms.savi(r[0], r[1], soil_factor=s) for sf in (0.25, 0.75, 1.0, 0.0)]),
+        "evi": (3, [lambda r, g=g, c=c: ms.evi(r[0], r[1], r[2], c1=c, gain=g) for g, c in ((2.5, 6.0), (1.0, 6.0), (2.5, 7.5))]),
+        "hillshade": (1, [lambda r, a=a, t=t: xs.hillshade(r[0], azimuth=a, angle_altitude=t) for a, t in ((225, 25), (100, 30), (225, 60))]),
+        "mean": (1, [lambda r, p=p, e=e: focal.mean(r[0], passes=p, excludes=e) for p, e in ((1, [np.nan]), (2, [np.nan]), (2, [-9999.0]), (1, [3.0]))]),
+        "apply": (1, [lambda r: focal.apply(r[0], k33), lambda r: focal.apply(r[0], k35), lambda r: focal.apply(r[0], k33, _rng)]),
+        "focal_stats": (1, [lambda r: focal.focal_stats(r[0], k33), lambda r: focal.focal_stats(r[0], k33, stats_funcs=["max", "min"]),
+                            lambda r: focal.focal_stats(r[0], k35, stats_funcs=["max", "min"])]),
+        "convolution": (1, [lambda r: convolution.convolution_2d(r[0], kernelw((3, 3))), lambda r: convolution.convolution_2d(r[0], kernelw((3, 5))),
+                            lambda r: convolution.convolution_2d(r[0], kernelw((3, 3)) * 2.0)]),
+        "hotspots": (1, [lambda r: focal.hotspots(r[0], k33), lambda r: focal.hotspots(r[0], k35)]),
+        "binary": (1, [lambda r: classify.binary(r[0], [1.0, 3.0]), lambda r: classify.binary(r[0], [2.0, 3.0, 7.0])]),
+        "reclassify": (1, [lambda r: classify.reclassify(r[0], bins=[0.0, 9.0, 12.0], new_values=[1, 2, 3]),
+                           lambda r: classify.reclassify(r[0], bins=[0.0, 4.5, 12.0], new_values=[1, 2, 3]),
+                           lambda r: classify.reclassify(r[0], bins=[0.0, 9.0, 12.0], new_values=[3, 2, 1])]),
+        "equal_interval": (1, [lambda r: classify.equal_interval(r[0], k=3), lambda r: classify.equal_interval(r[0], k=5)]),
+        "true_color": (3, [lambda r: ms.true_color(r[0], r[1], r[2]), lambda r: ms.true_color(r[0], r[1], r[2], nodata=5),
+                           lambda r: ms.true_color(r[0], r[1], r[2], c=5.0, th=0.3)]),
+        "ndvi_vs_swapped": (2, [lambda r: ms.ndvi(r[0], r[1]), lambda r: ms.ndvi(r[1], r[0]), lambda r: ms.nbr(r[0], r[1])]),
+        "perlin": (1, [lambda r: xs.perlin(r[0]), lambda r: xs.perlin(r[0], seed=7), lambda r: xs.perlin(r[0], freq=(2, 3))]),
+        "slope_aspect_curv": (1, [lambda r: xs.slope(r[0]), lambda r: xs.aspect(r[0]), lambda r: xs.curvature(r[0])]),
+    }
+    return F
